@@ -18,7 +18,7 @@
 
 use poulpy_hal::{
     api::{ModuleLogN, ScratchAvailable, VecZnxNormalizeTmpBytes},
-    layouts::{Backend, CyclotomicOrder, GaloisElement, Module, Scratch, VecZnx, galois_element},
+    layouts::{Backend, CyclotomicOrder, GaloisElement, Module, Scratch, galois_element},
 };
 
 pub use crate::api::GLWETrace;
@@ -69,23 +69,43 @@ where
         assert_eq!(self.n() as u32, a_infos.n());
         assert_eq!(self.n() as u32, key_infos.n());
 
-        let lvl_0: usize = self.glwe_automorphism_tmp_bytes(res_infos, a_infos, key_infos);
-        if a_infos.base2k() != key_infos.base2k() {
-            let lvl_1: usize = VecZnx::bytes_of(
-                self.n(),
-                (key_infos.rank_out() + 1).into(),
-                res_infos.max_k().min(a_infos.max_k()).div_ceil(key_infos.base2k()) as usize,
-            ) + self.vec_znx_normalize_tmp_bytes();
-            return lvl_0 + lvl_1;
-        }
-
-        let lvl_1: usize = if res_infos.max_k() > a_infos.max_k() {
-            GLWE::<Vec<u8>>::bytes_of_from_infos(res_infos)
-        } else {
-            GLWE::<Vec<u8>>::bytes_of_from_infos(a_infos)
+        // `glwe_trace` works on a copy of `a` in the key's radix, wide enough for `a` and `res`.
+        let tmp_infos: GLWELayout = GLWELayout {
+            n: res_infos.n(),
+            base2k: key_infos.base2k(),
+            k: a_infos.max_k().max(res_infos.max_k()),
+            rank: res_infos.rank(),
         };
+        let lvl_0: usize = GLWE::<Vec<u8>>::bytes_of_from_infos(&tmp_infos);
+        let lvl_1: usize = self
+            .glwe_normalize_tmp_bytes()
+            .max(self.glwe_trace_assign_internal_tmp_bytes(&tmp_infos, key_infos));
 
         lvl_0 + lvl_1
+    }
+
+    /// Scratch `glwe_trace_assign` needs for a ciphertext of layout `res_infos`
+    /// (at most `glwe_trace_tmp_bytes(res_infos, res_infos, key_infos)`).
+    fn glwe_trace_assign_internal_tmp_bytes<R, K>(&self, res_infos: &R, key_infos: &K) -> usize
+    where
+        R: GLWEInfos,
+        K: GGLWEInfos,
+    {
+        if res_infos.base2k() != key_infos.base2k() {
+            let conv_infos: GLWELayout = GLWELayout {
+                n: res_infos.n(),
+                base2k: key_infos.base2k(),
+                k: res_infos.max_k(),
+                rank: res_infos.rank(),
+            };
+            GLWE::<Vec<u8>>::bytes_of_from_infos(&conv_infos)
+                + self
+                    .glwe_normalize_tmp_bytes()
+                    .max(self.glwe_trace_assign_internal_tmp_bytes(&conv_infos, key_infos))
+        } else {
+            self.glwe_shift_tmp_bytes()
+                .max(self.glwe_automorphism_tmp_bytes(res_infos, res_infos, key_infos))
+        }
     }
 
     fn glwe_trace_default<R, A, K, H>(&self, res: &mut R, skip: usize, a: &A, keys: &H, scratch: &mut Scratch<BE>)
@@ -144,10 +164,10 @@ where
         assert_eq!(ksk_infos.rank_in(), res.rank());
         assert_eq!(ksk_infos.rank_out(), res.rank());
         assert!(
-            scratch.available() >= self.glwe_trace_tmp_bytes_default(res, res, ksk_infos),
-            "scratch.available(): {} < GLWETrace::glwe_trace_tmp_bytes: {}",
+            scratch.available() >= self.glwe_trace_assign_internal_tmp_bytes(res, ksk_infos),
+            "scratch.available(): {} < GLWETrace::glwe_trace_assign (internal) tmp_bytes: {}",
             scratch.available(),
-            self.glwe_trace_tmp_bytes_default(res, res, ksk_infos)
+            self.glwe_trace_assign_internal_tmp_bytes(res, ksk_infos)
         );
 
         if res.base2k() != ksk_infos.base2k() {
